@@ -201,13 +201,22 @@ example : Typed 1 1 xDen ∧ (Stage.tr (rowFn intOps) sDen xDen)[1]?
 accepted input is the column whose name was captured for position `i`, so the output names (which are built from the
 captured names by position) label the data they were built for.  A permutation of the columns is rejected. -/
 theorem C19_accepted_same_positions (fitNames callNames : List String)
-    (h : namesAccepted (some fitNames) (some callNames) = true) :
+    (h : namesAccepted (some fitNames) (.frame (some callNames)) = true) :
     callNames = fitNames ∧ ∀ i : Nat, callNames[i]? = fitNames[i]? := by
   have : fitNames = callNames := by simpa [namesAccepted] using h
   subst this
   exact ⟨rfl, fun _ => rfl⟩
 
-example : namesAccepted (some ["pos", "vel", "force"]) (some ["vel", "pos", "force"]) = false
-    ∧ namesAccepted (some ["pos", "vel"]) none = false ∧ namesAccepted none none = true := by decide
+/-- a frame is rejected whenever its names differ from the fit-time names in any way (other names, another order, names
+that are not all strings); only a plain array — which has no names that could contradict the captured ones — passes
+without a comparison -/
+theorem C19_different_names_rejected (fitNames : Option (List String)) (callNames : Option (List String))
+    (h : callNames ≠ fitNames) : namesAccepted fitNames (.frame callNames) = false := by
+  simp only [namesAccepted, beq_eq_false_iff_ne, ne_eq]
+  exact fun e => h e.symm
+
+example : namesAccepted (some ["pos", "vel", "force"]) (.frame (some ["vel", "pos", "force"])) = false
+    ∧ namesAccepted (some ["pos", "vel"]) (.frame none) = false ∧ namesAccepted none (.frame none) = true
+    ∧ namesAccepted (some ["pos", "vel"]) .array = true := by decide
 
 end Pk.C19
